@@ -796,11 +796,11 @@ def vc_bladedict_getitem(H):
                     blade = sym('stored-blade')
                     blades = sym('blades', on_contains=lambda i, me, item: cached and same(item, canon),
                                  on_getitem=lambda i, me, idx: blade)
-                    BIN = 5                                     # the key of the requested blade (grade 2)
+                    BIN = 6                                     # e23 in a 4-generator algebra: grade 2, not in ascending key position
                     made = []
                     alg = sym('algebra', attrs={'graded': graded,
                                                 'canon2bin': sym('canon2bin', on_getitem=lambda i, me, idx: BIN if same(idx, canon) else None),
-                                                'indices_for_grade': {0: (0,), 1: (1, 2, 4), 2: (3, 5, 6), 3: (7,)},
+                                                'indices_for_grade': {0: (0,), 1: (1, 2, 4, 8), 2: (3, 5, 9, 6, 10, 12), 3: (7, 11, 13, 14), 4: (15,)},       # canonical (name) order
                                                 'multivector': sym('alg.multivector', callable_result=lambda i, m, a, k: made.append(('mv', a, k)) or sym('new-graded-blade')),
                                                 '_blade2canon': sym('_blade2canon', callable_result=lambda i, m, a, k: (canon, swaps))})
                     me = sym('self', attrs={'algebra': alg, 'blades': blades})
@@ -832,7 +832,7 @@ def vc_bladedict_getitem(H):
                         kind, a, k = made[0]
                         if graded:
                             ctx.oblige('post (graded): unit coefficient at the position of the blade within its complete grade',
-                                       kind == 'mv' and k.get('values') == [0, 1, 0] and k.get('grades') == (2,), meta={'got': repr((a, k))})
+                                       kind == 'mv' and list(k.get('values') or []) == [0, 0, 0, 1, 0, 0] and k.get('grades') == (2,), meta={'got': repr((a, k))})
                         else:
                             aa = list(a) + [k.get(x) for x in ('keys', 'values') if x in k]
                             ctx.oblige('post: the blade is fromkeysvalues(algebra, (key,), [1])',
